@@ -146,7 +146,8 @@ PROPS = {
         "assumptions": ["totality only: every std string operation of the three parsers (split_once, ends_with, trim, trim_end_matches, to_string, parse::<usize>, format!) is rewritten (R17, tied to the exact expression text) to a shim without precondition - ASSUMED: none of them panics; `assert!(c)` of the real code is an obligation (R1: rt_assert requires c); the std trait FromStr is restated inside the unit",
                         "`rem.split(\", \").map(Arg::from_str).collect::<Result<Vec<_>, _>>().map_err(..)` is one shim (parse_args): total if Arg::from_str is - for ModuleGenericsDef that is verified here, for String it is std"],
         "not_covered": ["BOUNDED only (replay/ndl_driver, never counted as proved): ndl::transform and everything below it (dependency ordering, inheritance, generics, clusters, connections: FxHashMap lookups with `.expect(\"unreachable: parse order ...\")`, asserts, index expressions) never panics on generated descriptions and single-point mutations; mutated descriptions are answered with an error; unmutated descriptions elaborate to the network the template denotes (reference for this one template). Findings F12 and F14 were there",
-                        "(not covered at all) that the simulation BUILT from the elaborated network contains exactly the described modules, gate clusters and connections (des/src/net/ndl/mod.rs, registry, builder); descriptions outside the one template; serde's own parsing of the YAML document"],
+                        "BOUNDED only (replay/ndlsim_driver): the simulation BUILT from an unmutated template description (SimBuilder::nodes_from_ndl, des/src/net/ndl/mod.rs) has exactly the denoted module paths and gate chains (topology view); link parameters of the built channels and registered software are not compared",
+                        "(not covered at all) descriptions outside the one template; serde's own parsing of the YAML document"],
     },
     "C12": {
         "bundles": ["moduletree", "lifecycle"],
